@@ -157,8 +157,11 @@ PROPS["C25"] = dict(
     text="from_unix_timestamp/to_unix_timestamp: both real bodies extracted and verified by Verus against chrono's documented accessors (instant = v units after the epoch; floored counts), the round trip is a machine-checked lemma over the two contracts for every i64 and all four units. format_int/parse_int: the real format_radix body (Verus, every i64, every radix 2..=36): sign, digit validity, positional value == |x|, no overflow at i64::MIN, termination; round trip is a lemma over this contract and std's from_str_radix contract",
     verus=["v_format_radix", "v_unix_timestamp"],
     kani=[],
+    bounded_native=[dict(unit="pair_roundtrips", bound="19 edge + 2000 pseudo-random u32 addresses (5 compositions each), 2012 IPv6 addresses, 55 objects of depth <= 3 (scalars, scalar arrays, keys with spaces; no separators, no empty containers), 18 x 6 timestamps between years 1677 and 2262 with one full-precision format: 10306 compositions",
+                         functions=["stdlib ip_aton, ip_ntoa, ip_pton, ip_ntop, ip_to_ipv6, ipv6_to_ipv4 (std Ipv4Addr/Ipv6Addr parsing and printing)", "to_entries, from_entries, flatten, unflatten (BTreeMap iteration)", "format_timestamp, parse_timestamp (chrono strftime/strptime)"],
+                         text="the pairs whose code is std / chrono parsing and printing are outside both verifiers: each composition restores its input on the stated finite domain (bounded, never counted as proved)")],
     trusted=["verus prelude unixts.rs: DateTime<Utc> as nanoseconds since the epoch inside chrono's range; chrono accessors by their documentation", "std::char::from_digit and i64::from_str_radix contracts (assumed, std)", "String = chars in order (the final collect)", "format_int's base check `(2..=36).contains(&base)` establishes the radix precondition (read, not verified)"],
-    not_covered=["flatten/unflatten, to_entries/from_entries, ip_* pairs (std Ipv4Addr/Ipv6Addr parsers)", "format_timestamp/parse_timestamp (chrono strftime/strptime)", "chrono itself: Utc.timestamp_opt / timestamp_millis_opt / timestamp_micros / timestamp_nanos and DateTime::timestamp* are assumed contracts (prelude unixts.rs)"],
+    not_covered=["flatten/unflatten, to_entries/from_entries, ip_* pairs (std Ipv4Addr/Ipv6Addr parsers), format_timestamp/parse_timestamp (chrono strftime/strptime): no contract, only the bounded stand-in pair_roundtrips", "chrono itself: Utc.timestamp_opt / timestamp_millis_opt / timestamp_micros / timestamp_nanos and DateTime::timestamp* are assumed contracts (prelude unixts.rs)"],
     technique="contract-based deductive verification (Verus on the mechanically extracted real body, loop invariant + nonlinear lemmas)",
 )
 
